@@ -132,6 +132,21 @@ def streams(rng, tier):
     s2 = Stream("tokenizer-hostile", "hcore", tok_ops, rule="tokdec on every head with extreme declared lengths")
     s2.shrinkable = False
     yield s2
+    # a tokenizer obtained at, and beyond, the end of the input (set_position does not check): nothing, no panic — all three constructors
+    t2 = []
+    for op in tok_ops[::7]:
+        h = op.split(" ")[1]
+        n = len(h) // 2
+        for p in (n, n + 1, n + 9):
+            t2.append(f"tokdec2 {p} {h}")
+    def judge_t2(op, impl, model, spec):
+        parts = impl.split(" | ")
+        return "ok" if len(parts) == 3 and parts[0] == parts[1] == parts[2] else "violation"
+    s2c = Stream("tokenizer-beyond-end", "hcore", t2, model_ops=["nop"] * len(t2), judge=judge_t2,
+                 rule="tokdec2 <pos >= len>: Decoder::tokens(), Tokenizer::new and Tokenizer::from at and beyond the end of the input (no model op)",
+                 nontrivial=lambda op, impl: " | " in impl)
+    s2c.shrinkable = False
+    yield s2c
     # typed decodes with allocation accounting
     pre, mut = C01.typed_mutation_streams(rng, tier)
     def with_alloc(st, name):
@@ -149,7 +164,9 @@ def streams(rng, tier):
                   "9f", "bf", "5f", "7f", "9f9f9f9f9f9f9f9f", "821bffffffffffffffff1a3b9aca00", "c6" * 9, "d8" , "fb", "f9", "3b", "38",
                   "821b800000000000000000", "821b7fffffffffffffff1a3b9aca00", "821b7fffffffffffffff1affffffff", "821bffffffffffffffff00",
                   "821b80000000000000001a3b9ac9ff", "9f1b8000000000000000" "00ff", "1b8000000000000000", "3b8000000000000000", "3b7fffffffffffffff",
-                  "3bffffffffffffffff", "1bffffffffffffffff", "1b0000000100000041", "1a00110000", "19d800"):
+                  "3bffffffffffffffff", "1bffffffffffffffff", "1b0000000100000041", "1a00110000", "19d800",
+                  # thousands of nested indefinite-string heads (ill-formed; must be refused at the first inner head, not descended into)
+                  "5f" * 3000, "7f" * 3000, "9f" + "7f" * 3000, "5f" * 3000 + "ff" * 3000):
             hostile.append((f"tdecm {rt.name} {h}", f"tdec {rt.desc_s} {h}"))
     s5 = Stream("typed-hostile-lengths", "hcore", [a for a, _ in hostile], model_ops=[b for _, b in hostile], judge=judge_tdecm,
                 rule="every registered type on inputs declaring 2^64-1 / 2^32-1 elements or bytes, unterminated indefinite items, the Duration carry overflow")
@@ -170,6 +187,11 @@ def streams(rng, tier):
             else:
                 cs.append(rng.choice(calls))
         seqs.append(f"seq {gen.hexb(e)} " + " ".join(cs))
+    for acc in ("bytes", "str", "bytes_iter", "str_iter", "skip", "datatype"):
+        for d in (50, 3000, 20000):
+            for unit in ("5f", "7f"):
+                seqs.append(f"seq {unit * d} {acc}")
+                seqs.append(f"seq {unit * d}{'ff' * d} {acc} {acc}")
     s6 = Stream("call-sequences", "hcore", seqs, judge=judge_seq, rule="1..6 calls on one decoder incl. set_position (also far beyond the end) and probe")
     s6.shrinkable = False
     yield s6
